@@ -256,6 +256,19 @@ def initial_points_case(rng):
         if not all(lo[i] <= m[i] <= hi[i] for i in range(dim)):
             out.append(("initial-points/random-outside-limits", "SetRandomInitialPoints(%r,%r) produced %r" % (lo, hi, list(m)), {"lo": lo, "hi": hi}))
             break
+    # one-sided requests: the given side is honoured, the other side is the solver default (+-1000)
+    side = rng.choice(["min", "max"])
+    lim = [common.dyadic(rng, -40, 40, 2) for _ in range(dim)]
+    _random.seed(rng.randrange(2**31))
+    if side == "min":
+        s.SetRandomInitialPoints(min=list(lim))
+    else:
+        s.SetRandomInitialPoints(max=list(lim))
+    for m in s.population:
+        bad = [i for i in range(dim) if (m[i] < lim[i] if side == "min" else m[i] > lim[i]) or not (-1000.0 <= m[i] <= 1000.0)]
+        if bad:
+            out.append(("initial-points/one-sided-limit-ignored", "SetRandomInitialPoints(%s=%r) produced %r" % (side, lim, list(m)), {"side": side, "limit": lim}))
+            break
     x0 = [common.gfloat(rng, 5.0) for _ in range(dim)]
     r = rng.choice([0.05, 0.5, 0.0, 1.0])
     s.SetInitialPoints(list(x0), radius=r)
@@ -393,6 +406,71 @@ def signal_case(rng):
     return out, tag, (line, cmp, case)
 
 
+# ------------------------------------------------------------------ runs in which the solver itself installs collapse constraints
+def collapse_case(pid, rng):
+    """Solve() with `Or(stop, CollapseAt(0.0))`: when a parameter settles at 0 the solver turns the collapse into a
+    constraint and goes on.  C03: the user's constraints (in force from the first iteration; here a tie that READS the
+    collapsed parameter) hold at every evaluation, before and after the collapse.  C04: the callback is still called once
+    per iteration after the collapse."""
+    common.import_mystic()
+    from mystic.solvers import DifferentialEvolutionSolver, DifferentialEvolutionSolver2, NelderMeadSimplexSolver, PowellDirectionalSolver
+    from mystic.termination import Or, ChangeOverGeneration as COG, CollapseAt
+    from mystic.termination import state as tstate
+    out = []
+    which = rng.choice(["DE", "DE2", "NM", "Powell"])
+    inplace = rng.random() < 0.5
+    off = float(rng.choice([1.0, 2.0, -1.5]))
+    a = common.dyadic(rng, -2, 2, 2); b = common.dyadic(rng, -2, 2, 2)
+    calls = []; cbs = []
+
+    def cost(x):
+        xv = [float(v) for v in np.ravel(x)]
+        calls.append(xv)
+        return xv[0] ** 2 + (xv[1] - a) ** 2 + 0.5 * (xv[2] - b) ** 2
+
+    def tie(x):                       # x[2] = x[0] + off : idempotent, reads the parameter that will collapse
+        if inplace:
+            x[2] = x[0] + off
+            return x
+        y = list(x); y[2] = y[0] + off
+        return y
+    seed = rng.randrange(2 ** 31)
+    _random.seed(seed); np.random.seed(seed)
+    if which in ("DE", "DE2"):
+        s = (DifferentialEvolutionSolver if which == "DE" else DifferentialEvolutionSolver2)(3, 12)
+        s.SetRandomInitialPoints([-2.0, -2.0, -2.0], [2.0, 2.0, 2.0])
+    else:
+        s = (NelderMeadSimplexSolver if which == "NM" else PowellDirectionalSolver)(3)
+        s.SetInitialPoints([common.dyadic(rng, -2, 2, 2) + 0.5, 1.0, -1.0])
+    s.SetConstraints(tie)
+    s.SetEvaluationLimits(600 if which in ("DE", "DE2") else 300, 60000)
+    term = Or(COG(1e-12, 60), CollapseAt(0.0, tolerance=1e-3, generations=8))
+    s.SetTermination(term)
+    try:
+        s.Solve(cost, callback=lambda x: cbs.append([float(v) for v in np.ravel(x)]))
+    except Exception as exc:
+        return [("collapse-run/%s/raises" % which, "Solve raised %r" % (exc,), {"solver": which})], "collapse:%s:raised" % which
+    try:
+        st = tstate(s._termination)
+        collapsed = any(isinstance(v, dict) and v.get("mask") for v in st.values())
+    except Exception:
+        collapsed = False
+    case = {"solver": which, "inplace": inplace, "offset": off, "a": a, "b": b, "seed": seed, "collapsed": bool(collapsed),
+            "generations": int(s.generations), "n_cost_calls": len(calls), "n_callbacks": len(cbs)}
+    tag = "collapse:%s:%s" % (which, "collapsed" if collapsed else "no-collapse")
+    if pid == "C03":
+        for j, xv in enumerate(calls):
+            if xv[2] != xv[0] + off:
+                out.append(("collapse-run/%s/evaluated-unconstrained-point" % which,
+                            "cost call %d at %r violates the user's constraint x2 = x0 %+g (collapse applied: %s)" % (j, xv, off, collapsed), case))
+                break
+    if pid == "C04" and which != "Powell":
+        nrec = len(s._stepmon)
+        if len(cbs) != nrec:
+            out.append(("collapse-run/%s/callback-count" % which, "%d step records (iterations incl. the initial one) but the callback was invoked %d times (collapse applied: %s)" % (nrec, len(cbs), collapsed), case))
+    return out, tag
+
+
 # ------------------------------------------------------------------ shard
 def run_shard(pid, seed, shard, ncases, tier, extra):
     common.import_mystic()
@@ -474,6 +552,11 @@ def run_shard(pid, seed, shard, ncases, tier, extra):
                 findings.append(Finding("monitor", key, what, case))
             if req is not None:
                 wlines.append(req)
+        if pid in ("C03", "C04") and k % 5 == 0:
+            res, tag = collapse_case(pid, rng)
+            hist[tag] = hist.get(tag, 0) + 1
+            for key, what, case in res:
+                findings.append(Finding("monitor", key, what, case))
         if pid == "C05" and k % 2 == 1:
             res, tag, req = signal_case(rng)
             hist[tag] = hist.get(tag, 0) + 1
